@@ -425,4 +425,134 @@ theorem leaves_sound : ∀ (els : List El), secsNonEmpty els = true →
       · obtain ⟨x, hx, h⟩ := ih2.2 pre inT l hl
         exact ⟨x, by simp [qwp, hx], h⟩
 
+
+/-! ## per-question reading under unique paths -/
+
+/-- questions with path and nearest repeat ancestor (`none` = no repeat ancestor) -/
+def qwn (pre : Path) (near : Option Path) : List El → List (Path × Option Path × Q)
+  | [] => []
+  | .q d :: rest => (pre ++ [d.name], near, d) :: qwn pre near rest
+  | .grp n ks :: rest => qwn (pre ++ [n]) near ks ++ qwn pre near rest
+  | .rep n ks :: rest => qwn (pre ++ [n]) (some (pre ++ [n])) ks ++ qwn pre near rest
+
+/-- `expSet` by path -/
+def expSetP (y : Path × Option Path × Q) : List SetFact :=
+  if hasDynDefault dyn y.2.2 then
+    [{ loc := y.2.1,
+       set := { tag := "setvalue".toList, ref := y.1,
+                event := if y.2.1.isSome then evNewRepeat else evFirstLoad,
+                value := some (sub y.1 y.2.2.default) } }]
+  else []
+
+theorem expSets_eq_flatMap : ∀ (els : List El) (pre : Path) (near : Option Path),
+    expSets dyn sub pre near els = (qwn pre near els).flatMap (expSetP dyn sub)
+  | [], _, _ => by simp [expSets, qwn]
+  | .q d :: rest, pre, near => by
+    simp only [expSets, qwn, List.flatMap_cons, expSets_eq_flatMap rest pre near]
+    rfl
+  | .grp n ks :: rest, pre, near => by
+    simp [expSets, qwn, expSets_eq_flatMap ks (pre ++ [n]) near, expSets_eq_flatMap rest pre near]
+  | .rep n ks :: rest, pre, near => by
+    simp [expSets, qwn, expSets_eq_flatMap ks (pre ++ [n]) (some (pre ++ [n])), expSets_eq_flatMap rest pre near]
+
+theorem qwn_forget : ∀ (els : List El) (pre : Path) (near : Option Path),
+    (qwn pre near els).map (fun y => (y.1, y.2.2)) = qwp pre els
+  | [], _, _ => by simp [qwn, qwp]
+  | .q d :: rest, pre, near => by simp [qwn, qwp, qwn_forget rest pre near]
+  | .grp n ks :: rest, pre, near => by simp [qwn, qwp, qwn_forget ks (pre ++ [n]) near, qwn_forget rest pre near]
+  | .rep n ks :: rest, pre, near => by
+    simp [qwn, qwp, qwn_forget ks (pre ++ [n]) (some (pre ++ [n])), qwn_forget rest pre near]
+
+/-- inside a repeat every question's nearest repeat is defined -/
+theorem qwn_some : ∀ (els : List El) (pre r : Path) (y : Path × Option Path × Q),
+    y ∈ qwn pre (some r) els → y.2.1.isSome = true
+  | [], _, _, y => by simp [qwn]
+  | .q d :: rest, pre, r, y => by
+    intro h
+    simp only [qwn, List.mem_cons] at h
+    rcases h with h | h
+    · subst h; rfl
+    · exact qwn_some rest pre r y h
+  | .grp n ks :: rest, pre, r, y => by
+    intro h
+    simp only [qwn, List.mem_append] at h
+    rcases h with h | h
+    · exact qwn_some ks (pre ++ [n]) r y h
+    · exact qwn_some rest pre r y h
+  | .rep n ks :: rest, pre, r, y => by
+    intro h
+    simp only [qwn, List.mem_append] at h
+    rcases h with h | h
+    · exact qwn_some ks (pre ++ [n]) (pre ++ [n]) y h
+    · exact qwn_some rest pre r y h
+
+/-- outside repeats: the nearest repeat is defined exactly for the questions with a repeat ancestor -/
+theorem qwn_inRepeat : ∀ (els : List El) (pre : Path) (y : Path × Option Path × Q),
+    y ∈ qwn pre none els → y.2.1.isSome = true → (y.1, y.2.2) ∈ qInRepeat pre els
+  | [], _, y => by simp [qwn]
+  | .q d :: rest, pre, y => by
+    intro h hs
+    simp only [qwn, List.mem_cons] at h
+    simp only [qInRepeat]
+    rcases h with h | h
+    · subst h; simp at hs
+    · exact qwn_inRepeat rest pre y h hs
+  | .grp n ks :: rest, pre, y => by
+    intro h hs
+    simp only [qwn, List.mem_append] at h
+    simp only [qInRepeat, List.mem_append]
+    rcases h with h | h
+    · left; exact qwn_inRepeat ks (pre ++ [n]) y h hs
+    · right; exact qwn_inRepeat rest pre y h hs
+  | .rep n ks :: rest, pre, y => by
+    intro h hs
+    simp only [qwn, List.mem_append] at h
+    simp only [qInRepeat, List.mem_append]
+    rcases h with h | h
+    · left
+      rw [← qwn_forget ks (pre ++ [n]) (some (pre ++ [n]))]
+      exact List.mem_map.2 ⟨y, h, rfl⟩
+    · right; exact qwn_inRepeat rest pre y h hs
+
+/-- facts keyed by unique paths: filtering a flatMap by one key leaves that key's facts -/
+theorem filter_flatMap_unique {α β} (key : α → Path) (r : β → Path) (g : α → List β)
+    (hg : ∀ z f, f ∈ g z → r f = key z) :
+    ∀ (l : List α), (l.map key).Nodup → ∀ y ∈ l,
+      (l.flatMap g).filter (fun f => decide (r f = key y)) = g y
+  | [], _, y, hy => by simp at hy
+  | z :: rest, hnd, y, hy => by
+    simp only [List.map_cons, List.nodup_cons] at hnd
+    simp only [List.flatMap_cons, List.filter_append]
+    rcases List.mem_cons.1 hy with h | h
+    · subst h
+      have h1 : (g y).filter (fun f => decide (r f = key y)) = g y :=
+        List.filter_eq_self.2 (fun f hf => by simp [hg y f hf])
+      have h2 : (rest.flatMap g).filter (fun f => decide (r f = key y)) = [] := by
+        apply List.filter_eq_nil_iff.2
+        intro f hf
+        obtain ⟨z', hz', hfz⟩ := List.mem_flatMap.1 hf
+        have hne : key z' ≠ key y := fun e => hnd.1 (e ▸ List.mem_map_of_mem hz')
+        simp [hg z' f hfz, hne]
+      rw [h1, h2, List.append_nil]
+    · have hne : key z ≠ key y := fun e => hnd.1 (e ▸ List.mem_map_of_mem h)
+      have h1 : (g z).filter (fun f => decide (r f = key y)) = [] := by
+        apply List.filter_eq_nil_iff.2
+        intro f hf
+        simp [hg z f hf, hne]
+      rw [h1, List.nil_append]
+      exact filter_flatMap_unique key r g hg rest hnd.2 y h
+
+theorem nodup_key_unique {α} (key : α → Path) : ∀ (l : List α), (l.map key).Nodup →
+    ∀ a ∈ l, ∀ b ∈ l, key a = key b → a = b
+  | [], _, a, ha, _, _, _ => by simp at ha
+  | z :: rest, hnd, a, ha, b, hb, hk => by
+    simp only [List.map_cons, List.nodup_cons] at hnd
+    rcases List.mem_cons.1 ha with ha' | ha'
+    · rcases List.mem_cons.1 hb with hb' | hb'
+      · rw [ha', hb']
+      · subst ha'; exact absurd (hk ▸ List.mem_map_of_mem hb') hnd.1
+    · rcases List.mem_cons.1 hb with hb' | hb'
+      · subst hb'; exact absurd (hk ▸ List.mem_map_of_mem ha') hnd.1
+      · exact nodup_key_unique key rest hnd.2 a ha' b hb' hk
+
 end Pyxv.Defaults
